@@ -278,6 +278,9 @@ class Result:
             m = {}
             for ent in rk:
                 m[ent["n"]] = ent
+                if ent.get("err") == "type":
+                    # the executor could not build a datatype of the script: a harness problem, never a verdict on the library
+                    raise PoolError("harness", "statement %s: datatype specification rejected by pncx" % ent.get("n"))
             self.by.append(m)
 
     def get(self, n, rank=0):
